@@ -106,4 +106,30 @@ func init() {
 		variant{Name: "benign-last-chunk-clamped-by-a-test", File: cmap, Find: clampLine,
 			Replace: "\t\t\t\tendChunk := chunkSize * (s + 1)\n\t\t\t\tif endChunk > set.Len() {\n\t\t\t\t\tendChunk = set.Len()\n\t\t\t\t}\n"},
 	)
+
+	// round 19
+	const (
+		morassF = "morass/morass.go"
+		palsF   = "align/pals/pals.go"
+		letters = "alphabet/letters.go"
+	)
+	const memEOF = "\t\t\tm.chunk = nil\n\t\t\tfallthrough\n\t\tdefault:\n\t\t\tif m.AutoClear {\n\t\t\t\tm.Clear()\n\t\t\t}\n\t\t\tif m.AutoClean {\n\t\t\t\tos.RemoveAll(m.dir)\n"
+	add("C13",
+		variant{Name: "in-memory-drain-removes-only-an-empty-directory", File: morassF, Find: memEOF,
+			Replace: "\t\t\tm.chunk = nil\n\t\t\tfallthrough\n\t\tdefault:\n\t\t\tif m.AutoClear {\n\t\t\t\tm.Clear()\n\t\t\t}\n\t\t\tif m.AutoClean {\n\t\t\t\tos.Remove(m.dir)\n",
+			Rule:    "dirremoval", Key: "morass.(*Morass).Pull/temporary-directory-removed-with-contents"},
+	)
+	const ephredTail = "\tQ := -10 * math.Log10(p)\n\tQ += 0.5\n\tif Q > 254 {\n\t\tQ = 254\n\t}\n\treturn Qphred(Q)\n"
+	add("C18",
+		variant{Name: "phred-saturated-before-the-half-is-added", File: letters, Find: ephredTail,
+			Replace: "\tQ := -10 * math.Log10(p)\n\tif Q > math.MaxUint8 {\n\t\treturn 254\n\t}\n\treturn Qphred(Q + 0.5)\n",
+			Rule:    "clampfirst", Key: "alphabet.Ephred/saturate-before-narrowing"},
+		variant{Name: "benign-phred-saturated-by-min", File: letters, Find: ephredTail,
+			Replace: "\treturn Qphred(math.Min(-10*math.Log10(p)+0.5, 254))\n"},
+		variant{Name: "solexa-offset-removed-after-the-conversion", File: letters, Find: "\t\treturn (Qsolexa(q) - 64).Qphred()\n",
+			Replace: "\t\treturn Qsolexa(q).Qphred() - 64\n",
+			Rule:    "tables/quality", Key: "alphabet.Encoding/Solexa/Qphred-decode-converts-after-the-offset"},
+		variant{Name: "benign-solexa-offset-removed-in-a-temporary", File: letters, Find: "\t\treturn (Qsolexa(q) - 64).Qphred()\n",
+			Replace: "\t\tqs := Qsolexa(q) - 64\n\t\treturn qs.Qphred()\n"},
+	)
 }
